@@ -249,6 +249,17 @@ def doRun (a : Json) : Except String Json := do
     ("sizes", sizesOf createLocal),
     ("update", update),
     ("controller", outcome (syncUpstreamCluster env false [] c)),
+    ("controllerOthers", outcome (
+      -- the gateway already serves the other clusters of the lister (not the object's own name) and, for an
+      -- update, the old object
+      let others := (known.filter (fun k => env.lower k.name ≠ env.lower c.name)).map Known.toCluster
+      let m0 := applyOthers env false [] others
+      let m1 := match op, oldObj with
+        | .update, some o => (match syncUpstreamCluster env false m0 o with
+          | .ok m' => m'
+          | .error _ => m0)
+        | _, _ => m0
+      syncUpstreamCluster env false m1 c)),
     ("limiter", outcome limiter),
     ("limiterUpdate", outcome limiterUpd),
     ("globalSizes", match limiter with
